@@ -32,6 +32,8 @@ PERMISSIVE = {
     220: "P3 Huffman literal stream without end mark: the 4-stream fast decoder (HUF_initFastDStream) tolerates a zero last byte",
     221: "P3 Huffman literal stream exhausted early: the 4-stream fast decoder does not verify exact consumption",
     222: "P3 Huffman literal stream not consumed exactly: the 4-stream fast decoder does not verify exact consumption",
+    106: "P4 FSE table description running past the end of its buffer: FSE_readNCount wraps its bit counter (bitCount &= 31) inside the last 4 bytes "
+         "instead of failing, and decodes stale bits (reads stay inside the buffer)",
 }
 
 
@@ -275,6 +277,28 @@ def make_cases(ctx, rng, cd, witnesses, gdict):
         else:
             clines.append("C v%d compress2 %s %s %s %s" % (i, codec.params_str(p), "load" if usedict else "-", codec.hx(gdict["dict"]) if usedict else "-", codec.hx(x)))
         meta["v%d" % i] = (x, usedict, kind)
+    # blocks whose literals section is larger than ZSTD_LITBUFFEREXTRASIZE (split literal buffer): skewed bytes without
+    # matches worth taking, compressed with long minimum matches, one 128 KiB block or several smaller ones
+    for j, size in enumerate([66000, 70000, 131072] if quick else [66000, 70000, 100000, 131072, 131073, 200000, 262144]):
+        w = [1.0 / (1 + (k % 37)) for k in range(200)]
+        x = bytes(rng.choices(range(200), weights=w, k=size))
+        p = dict(level=1, minMatch=7, strategy=1, checksum=rng.randrange(2))
+        if rng.random() < 0.4:
+            p["windowLog"] = 17
+        clines.append("C vb%d compress2 %s - - %s" % (j, codec.params_str(p), codec.hx(x)))
+        meta["vb%d" % j] = (x, False, "biglit")
+    # frames that make the streaming decoder's output ring buffer restart: small windows, content several times the
+    # window, irregular block sizes (flushes), content size declared or not
+    for j in range(6 if quick else 30):
+        size = rng.choice([5000, 12000, 20000, 40000])
+        x = codec.gen_input(rng, rng.choice(["text", "mixed", "selfcopy", "random", "lowent"]), size)
+        p = dict(level=rng.choice([1, 3, 5]), windowLog=rng.choice([10, 10, 11, 12]), contentSize=rng.randrange(2), checksum=rng.randrange(2))
+        if j % 2:
+            ops = ";".join("%d:%d:%d" % (rng.choice([1, 100, 700, 1000, 1024, 3000]), 1 << 20, rng.choice([0, 1, 1])) for _ in range(14)) + ";%d:%d:2" % (size, 1 << 20)
+            clines.append("S vr%d %s - - %s %s" % (j, codec.params_str(p), ops, codec.hx(x)))
+        else:
+            clines.append("C vr%d compress2 %s - - %s" % (j, codec.params_str(p), codec.hx(x)))
+        meta["vr%d" % j] = (x, False, "ring")
     out, errs = cd.impl(clines)
     if errs:
         raise RuntimeError("zv_codec crashed while producing the valid frames: %r" % (errs[:1],))
@@ -291,6 +315,7 @@ def make_cases(ctx, rng, cd, witnesses, gdict):
     if len(nodict) >= 2:
         valid.append((nodict[0][0] + SKIPMAGIC + bytes([5, 0, 0, 0]) + b"hello" + nodict[1][0], None, None, nodict[0][3] + nodict[1][3]))
     ctx.notes["valid_frames"] = len(valid)
+    ctx.c03_valid = valid
     others = [(fr, st) for fr, st, d, x in valid if st]
     for fr, st, d, x in valid:
         add("F", fr, "valid", dict_=d, cap=len(x) + rng.choice([0, 0, 1, 100]), base=x)
@@ -471,6 +496,42 @@ def check_watchdog(ctx, model_exe, items, npmax):
     return n
 
 
+def check_ring(ctx, model_exe, items):
+    """items: [(case, rg string)].  The extracted ring model must predict the buffer size and outStart after every block."""
+    lines, exp = [], {}
+    for c, rg in items:
+        parts = [p for p in rg.split(";") if p]
+        if len(parts) < 2 or ":" not in parts[0] or parts[-1] in ("x", "L"):
+            parts = [p for p in parts if p not in ("x", "L")]
+            if len(parts) < 2 or ":" not in parts[0]:
+                continue
+        W, fcs, B, size = [int(v) for v in parts[0].split(":")]
+        obs = [tuple(int(v) for v in p.split(">")) for p in parts[1:] if ">" in p]
+        if not obs or B == 0:
+            continue
+        lines.append("G %s %d %d %d %s" % (c["id"], W, min(fcs, (1 << 62) - 1), B, ",".join(str(r) for r, _ in obs)))
+        exp[c["id"]] = (c, W, fcs, B, size, obs)
+    res = run_model(model_exe, lines) if lines else []
+    for l in res:
+        t = l.split(" ")
+        c, W, fcs, B, size, obs = exp[t[1]]
+        msize = int(t[2].split("=")[1])
+        mstarts = [int(v) for v in t[3].split("=")[1].split(",") if v]
+        wrapped = any(s < p for (_, s), (_, p) in zip(obs[1:], obs))
+        ctx.count(("ring", wrapped, size < fcs, W, min(len(obs), 12)), nontrivial=len(obs) > 1)
+        ctx.cov["traces_validated_against_impl"] += 1
+        if msize != size:
+            ctx.violation(replay_of(c, what="ring", window=W, fcs=fcs, blockSizeMax=B, outBuffSize=size, model=msize),
+                          what="streaming decoder: output buffer size %d differs from the model of ZSTD_decodingBufferSize_internal (%d) for windowSize %d, content size %d, blockSizeMax %d"
+                               % (size, msize, W, fcs, B))
+        elif mstarts[:len(obs)] != [s for _, s in obs]:
+            k = next((i for i, (a, b) in enumerate(zip(mstarts, [s for _, s in obs])) if a != b), min(len(mstarts), len(obs)))
+            ctx.violation(replay_of(c, what="ring", window=W, fcs=fcs, blockSizeMax=B, outBuffSize=size, observed=obs[:k + 2], model=mstarts[:k + 2]),
+                          what="streaming decoder: outStart after block %d is %s, the ring-buffer model says %s (windowSize %d, blockSizeMax %d, buffer %d)"
+                               % (k, obs[k][1] if k < len(obs) else "-", mstarts[k] if k < len(mstarts) else "-", W, B, size))
+    return len(res)
+
+
 def replay_of(c, **kw):
     d = dict(kind="fuzz", line=case_line(c)[:1200000], origin=c["origin"])
     d.update(kw)
@@ -492,12 +553,15 @@ def evaluate(ctx, cd, model_exe, cases, out, crashes, npmax, variant):
     fcases = [c for c in cases if c["cmd"] == "F" and c["id"] in out]
     rin = []
     for c in fcases:
-        fl = "nostrict" + (",magicless" if "ml" in c["flags"] else "")
+        # w=2^32: ZSTD_decompress has no window limit of its own (no window buffer): every Window_Descriptor with
+        # windowLog <= ZSTD_WINDOWLOG_MAX is accepted, mantissa included (up to 3.75 GiB).  R's default limit of 2^31 is a
+        # caller policy ("limit" class), not a safety check; the window-log bound itself is site 417.
+        fl = "nostrict,w=4294967296" + (",magicless" if "ml" in c["flags"] else "")
         rin.append((c["id"], fl, c["dict"], c["data"]))
     t0 = time.time()
     mres = cd.model(rin) if variant == "asan" else {}
     core.log("R on %d frame-level cases: %.1fs" % (len(rin), time.time() - t0))
-    hist, perm, wd_items = {}, {}, []
+    hist, perm, wd_items, rg_items = {}, {}, [], []
     stricter, sites, stricter_ex, okmut = 0, {}, {}, 0
     for c in cases:
         if c["id"] not in out:
@@ -519,6 +583,8 @@ def evaluate(ctx, cd, model_exe, cases, out, crashes, npmax, variant):
         for k in ("strm", "strm1"):
             if variant == "asan":
                 wd_items.append((c, k, fd.get("wd" if k == "strm" else "wd1", "-")))
+        if variant == "asan" and fd.get("rg", "-") != "-":
+            rg_items.append((c, fd["rg"]))
         m = mres.get(c["id"])
         if c.get("base") is not None:
             if one != "OK:" + (c["base"].hex() if c["base"] else "-"):
@@ -543,7 +609,7 @@ def evaluate(ctx, cd, model_exe, cases, out, crashes, npmax, variant):
                                   what="ZSTD_decompressBound (%s) is smaller than the decoded size (%d) of a frame the reference decoder accepts" % (bm.group(1), len(got)))
             else:
                 site = m[2]
-                if site in PERMISSIVE and m[1] in ("safety", "format"):
+                if site in PERMISSIVE and (m[1] in ("safety", "format") or (m[1], site) == ("trunc", 106)):
                     perm[PERMISSIVE[site][:2]] = perm.get(PERMISSIVE[site][:2], 0) + 1
                     ctx.count(("permissive", site, o), nontrivial=True)
                 else:
@@ -564,6 +630,7 @@ def evaluate(ctx, cd, model_exe, cases, out, crashes, npmax, variant):
         ctx.cov["traces_validated_against_impl"] += 1
     if variant == "asan":
         check_watchdog(ctx, model_exe, wd_items, npmax)
+        ctx.notes["ring_traces"] = check_ring(ctx, model_exe, rg_items)
         ctx.notes["origins"] = hist
         ctx.notes["permissive_cases"] = perm
         ctx.notes["R_accepts_libzstd_rejects"] = stricter
@@ -633,6 +700,292 @@ def hashset_tie(ctx, model_exe):
 
 
 # --------------------------------------------------------------------------------------------------------------
+# literal buffer placement tie (model coq/Safety/LitBuffer.v vs ZSTD_decodeLiteralsBlock of the current sources)
+
+LIT_ERR = {"LitGtBlock": "Data_corruption_detected", "CSizeGtSrc": "Data_corruption_detected", "RawGtSrc": "Data_corruption_detected",
+           "FourStreams": "Header_of_Literals__block_doesn_t_respect_format_specification", "DstTooSmall": "Destination_buffer_is_too_small"}
+
+
+def lit_header(kind, n, rng):
+    """literals section header for raw (0) / RLE (1) literals of regenerated size n, in a randomly chosen legal width"""
+    forms = [f for f, lim in ((0, 32), (1, 4096), (3, 1 << 20)) if n < lim]
+    sf = rng.choice(forms)
+    if sf == 0:
+        return bytes([kind | (n << 3)])        # 1-bit size format '0'; bit 3 is the low bit of the size
+    v = kind | (sf << 2) | (n << 4)
+    return v.to_bytes(2 if sf == 1 else 3, "little")
+
+
+def parse_lit_header(b):
+    """-> (kind string, lhSize, litSize, litCSize) of a literals section, or None"""
+    if len(b) < 5:
+        return None
+    lt, sf = b[0] & 3, (b[0] >> 2) & 3
+    if lt < 2:
+        lh = 1 if sf in (0, 2) else (2 if sf == 1 else 3)
+        hv = int.from_bytes(b[:lh], "little")
+        return ("raw" if lt == 0 else "rle", lh, hv >> 3 if sf in (0, 2) else hv >> 4, 0)
+    lh = 3 if sf < 2 else (4 if sf == 2 else 5)
+    nb = 10 if sf < 2 else (14 if sf == 2 else 18)
+    hv = int.from_bytes(b[:lh], "little")
+    return ("huf1" if sf == 0 else "huf4", lh, (hv >> 4) & ((1 << nb) - 1), (hv >> (4 + nb)) & ((1 << nb) - 1), lt)
+
+
+def litbuf_tie(ctx, model_exe, valid):
+    exe = core.build_harness("c03_litbuf", ["c03_litbuf.c"], variant="asan", extra_flags=["-w"])
+    rng = random.Random(ctx.seed * 104729 + 11)
+    W, EXTRA = gen_tables_const("c_WILDCOPY_OVERLENGTH"), gen_tables_const("c_ZSTD_LITBUFFEREXTRASIZE")
+    cases = []      # (id, kind, B, cap, streaming, src bytes, lh, n, cs, comparable_on_ok)
+
+    def caps(B, n):
+        return [0, 1, max(n - 1, 0), n, n + 1, B - 1, B, B + 1, B + 2 * W + n - 1, B + 2 * W + n, B + 2 * W + n + 1, 400000,
+                EXTRA, EXTRA + 1, n + W, rng.randrange(0, 300000)]
+    ns_all = [0, 1, 5, 6, 31, 32, 100, 1023, 1024, 1025, 4095, 4096, EXTRA - 1, EXTRA, EXTRA + 1, EXTRA + W, EXTRA + 2 * W, 69999, 70000, 70001,
+              100000, 131071, 131072, 131073, 200000]
+    nsyn = 700 if ctx.quick else 6000
+    for i in range(nsyn):
+        B = rng.choice([1024, 4096, EXTRA, EXTRA + 1, 70000, 131072, 131072, 131072])
+        n = rng.choice(ns_all) if rng.random() < 0.85 else rng.randrange(0, 140000)
+        cap = rng.choice(caps(B, n))
+        st = rng.randrange(2)
+        if rng.random() < 0.5:
+            hdr = lit_header(0, n, rng)
+            avail = max(0, rng.choice([n - 1, n, n, n + W - 1, n + W, n + W + 1, n + 100]))
+            if len(hdr) + avail < 4:
+                avail = 4 - len(hdr)
+            src = hdr + bytes((7 * k + i) & 255 for k in range(avail))
+            cases.append(("s%d" % i, "raw", B, cap, st, src, len(hdr), n, 0, True))
+        else:
+            hdr = lit_header(1, n, rng)
+            src = hdr + bytes([65 + i % 26]) + bytes(rng.choice([0, 0, 3, 40]))
+            if len(src) < 4:
+                src += bytes(4 - len(src))
+            cases.append(("s%d" % i, "rle", B, cap, st, src, len(hdr), n, 0, True))
+    # Huffman-compressed literal sections of real frames (the decoding really runs into the chosen buffer)
+    k = 0
+    for fr, st_, d, x in valid:
+        if not st_:
+            continue
+        for bo, bt, co, cl in st_["blocks"]:
+            if bt != 2 or cl < 5:
+                continue
+            body = fr[co:co + cl]
+            ph = parse_lit_header(body)
+            if not ph or ph[0] not in ("huf1", "huf4") or ph[4] != 2:
+                continue
+            kind, lh, n, cs = ph[:4]
+            for cap in rng.sample(caps(131072, n), 5 if ctx.quick else 12):
+                for B in ([131072] if n <= 1024 else [131072, max(n, 1024), max(n - 1, 1024)]):
+                    cases.append(("h%d" % k, kind, B, cap, rng.randrange(2), body, lh, n, cs, True))
+                    k += 1
+            # the same section with a mutated header: the size checks come before the decoding, so an error verdict of the
+            # model must be the verdict of the code; when the model accepts, a Huffman failure of the code is not comparable
+            for _ in range(2):
+                mb = bytearray(body)
+                j = rng.randrange(lh)
+                mb[j] = mut_byte(rng, mb[j])
+                ph2 = parse_lit_header(bytes(mb))
+                if ph2 and ph2[0] in ("huf1", "huf4") and ph2[4] == 2:
+                    cases.append(("h%d" % k, ph2[0], 131072, rng.choice(caps(131072, ph2[2])), rng.randrange(2), bytes(mb), ph2[1], ph2[2], ph2[3], False))
+                    k += 1
+            if k > (900 if ctx.quick else 9000):
+                break
+    clines = ["P %s %d %d %d %s" % (c[0], c[2], c[3], c[4], codec.hx(c[5])) for c in cases]
+    mlines = ["P %s %s %d %d %d %d %d %d %d" % (c[0], c[1], c[2], c[3], len(c[5]), c[6], c[7], c[8], c[4]) for c in cases]
+    t0 = time.time()
+    cout, crashes = run_lines(exe, clines, out_id_index=1)
+    mout = {l.split(" ")[1]: l.split(" ", 2)[2] for l in run_model(model_exe, mlines)}
+    for line, rc, err in crashes:
+        summ = " ".join(re.findall(r"(ERROR: AddressSanitizer[^\n]*|SUMMARY:[^\n]*|runtime error:[^\n]*)", err)[:3]) or err[-300:]
+        ctx.violation(dict(kind="litbuf", line=line[:1200000], rc=rc, report=err[-2500:]),
+                      what="ZSTD_decodeLiteralsBlock: sanitizer trap / crash (rc=%d) on %s...: %s" % (rc, line[:60], summ[:300]))
+    nsplit = 0
+    for c in cases:
+        cid = c[0]
+        got, want = cout.get(cid), mout.get(cid)
+        if got is None or want is None:
+            continue
+        ctx.cov["traces_validated_against_impl"] += 1
+        if want.startswith("ERR "):
+            exp = "ERR " + LIT_ERR[want[4:]]
+            ok = got == exp
+            sig = ("litbuf", c[1], want, c[4])
+        else:
+            exp = want
+            ok = got == exp or (not c[9] and got == "ERR Data_corruption_detected")
+            loc = re.search(r"loc=(\d) ptr=(\w+)", want).groups()
+            nsplit += loc[0] == "2"
+            sig = ("litbuf", c[1], loc, c[4], c[7] > EXTRA, c[3] >= c[2])
+        ctx.count(sig, nontrivial=True)
+        if not ok:
+            ctx.violation(dict(kind="litbuf", line="P %s %d %d %d %s" % (cid, c[2], c[3], c[4], codec.hx(c[5]))[:1200000],
+                               model_line="P %s %s %d %d %d %d %d %d %d" % (cid, c[1], c[2], c[3], len(c[5]), c[6], c[7], c[8], c[4]), impl=got, model=exp),
+                          what="literal buffer placement of ZSTD_decodeLiteralsBlock differs from the model (%s literals, litSize %d, blockSizeMax %d, dstCapacity %d, %s): code %s, model %s"
+                               % (c[1], c[7], c[2], c[3], "streaming" if c[4] else "not streaming", got[:90], exp[:90]))
+    ctx.notes["litbuf_cases"] = len(cases)
+    ctx.notes["litbuf_split_placements"] = nsplit
+    core.log("literal buffer tie: %d cases in %.1fs" % (len(cases), time.time() - t0))
+
+
+# --------------------------------------------------------------------------------------------------------------
+# unit-level tie of the entropy-table readers (HUF_readStats, FSE_readNCount vs R's read_huf_weights / read_ncount)
+
+def entropy_sources(rng, valid, gdict, quick):
+    """-> [(kind 'UH'|'UN', maxSV, bytes, origin)]"""
+    src = []
+    for fr, st, d, x in valid:
+        if not st:
+            continue
+        for bo, bt, co, cl in st["blocks"]:
+            if bt != 2 or cl < 5:
+                continue
+            body = fr[co:co + cl]
+            ph = parse_lit_header(body)
+            if not ph:
+                continue
+            lh, n, cs = ph[1], ph[2], ph[3]
+            if ph[0] in ("huf1", "huf4"):
+                if ph[4] == 2:
+                    src.append(("UH", 0, body[lh:lh + cs], "real"))
+                p = lh + cs
+            else:
+                p = lh + (n if ph[0] == "raw" else 1)
+            if p >= len(body):
+                continue
+            b0 = body[p]
+            if b0 == 0:
+                continue
+            p += 1 if b0 < 128 else (3 if b0 == 255 else 2)
+            if p >= len(body):
+                continue
+            modes = body[p]
+            p += 1
+            for msv, m in ((35, modes >> 6), (31, (modes >> 4) & 3), (52, (modes >> 2) & 3)):
+                if m == 1:
+                    p += 1
+                elif m == 2:
+                    src.append(("UN", msv, body[p:p + 80], "real"))
+                    break         # the next table starts where this one ends: known only after reading it
+    src.append(("UH", 0, gdict["dict"][8:8 + 200], "real"))
+    real = list(src)
+    rng.shuffle(real)
+    real = real[:(60 if quick else 400)]
+    out = list(real)
+    # crafted: the limits of the readers
+    for hx in ("81cc", "82ccc0", "81c0", "8110", "8100", "80", "ff" + "11" * 64, "fe" + "11" * 64, "8fcccccccccccccccc", "83ccc1", "821230", "8211",
+               "00", "01", "0130", "7f" + "00" * 10):
+        out.append(("UH", 0, bytes.fromhex(hx), "crafted"))
+    for msv in (35, 31, 52, 255, 0, 1):
+        for hx in ("0f", "0a0000", "0b0000000000", "05000200", "e30200", "10feffff01", "00", "0000", "ffffffffffffffff", "4a" + "00" * 8, "0c" + "ff" * 12, "06" + "55" * 20):
+            out.append(("UN", msv, bytes.fromhex(hx), "crafted"))
+    nm = 500 if quick else 5000
+    for i in range(nm):
+        k, msv, b, _ = rng.choice(real) if real and rng.random() < 0.85 else rng.choice(out)
+        b = bytearray(b)
+        r = rng.random()
+        if r < 0.7 and b:
+            for _ in range(rng.choice([1, 1, 2, 3])):
+                j = rng.randrange(min(len(b), 24)) if rng.random() < 0.8 else rng.randrange(len(b))
+                b[j] = mut_byte(rng, b[j])
+        elif r < 0.85 and b:
+            b = b[:rng.randrange(len(b))]
+        else:
+            b = bytearray(rng.randbytes(rng.choice([1, 2, 3, 5, 9, 20, 60])))
+        if k == "UN" and rng.random() < 0.2:
+            msv = rng.choice([0, 1, 20, 31, 35, 52, 255])
+        out.append((k, msv, bytes(b), "mutated"))
+    return out
+
+
+def entropy_tie(ctx, model_exe, valid, gdict):
+    exe = core.build_harness("c03_entropy", ["c03_entropy.c"], variant="asan", extra_flags=["-w"])
+    rng = random.Random(ctx.seed * 15485863 + 5)
+    srcs = entropy_sources(rng, valid, gdict, ctx.quick)
+    lines = []
+    for i, (k, msv, b, origin) in enumerate(srcs):
+        lines.append("%s u%d %s%s" % (k, i, ("%d " % msv) if k == "UN" else "", codec.hx(b)))
+    t0 = time.time()
+    cout, crashes = run_lines(exe, lines, out_id_index=1)
+    mout = {l.split(" ")[1]: l.split(" ", 2)[2] for l in run_model(model_exe, lines)}
+    for line, rc, err in crashes:
+        summ = " ".join(re.findall(r"(ERROR: AddressSanitizer[^\n]*|SUMMARY:[^\n]*|runtime error:[^\n]*)", err)[:3]) or err[-300:]
+        ctx.violation(dict(kind="entropy", line=line[:100000], rc=rc, report=err[-2500:]),
+                      what="%s: sanitizer trap / crash (rc=%d) on the table description %s: %s"
+                           % ("HUF_readStats" if line.startswith("UH") else "FSE_readNCount", rc, line.split(" ")[-1][:60], summ[:300]))
+
+    def canon(s):
+        f = fields(s)
+        v = [x for x in f.get("w", f.get("c", "")).split(",") if x]
+        if "c" in f:
+            while v and v[-1] == "0":
+                v.pop()
+        return (f.get("used"), f.get("log"), tuple(v))
+    stricter = perm4 = 0
+    for i, (k, msv, b, origin) in enumerate(srcs):
+        cid = "u%d" % i
+        got, want = cout.get(cid), mout.get(cid)
+        if got is None or want is None:
+            continue
+        ctx.cov["traces_validated_against_impl"] += 1
+        okc, okm = got.startswith("OK"), want.startswith("OK")
+        ctx.count(("entropy", k, okc, want[:14] if not okm else "ok", origin, canon(want)[1] if okm else None), nontrivial=True)
+        if origin == "real" and not (okc and okm):
+            ctx.violation(dict(kind="entropy", line=lines[i], impl=got[:300], model=want[:300]),
+                          what="a table description taken from a valid frame is refused (%s: code %s, reference reader %s)" % (k, got[:40], want[:40]))
+        elif okc and not okm and k == "UN" and not want.startswith("ERR format/104"):
+            # FSE_readNCount near the end of its buffer wraps its bit counter (bitCount &= 31) and goes on with stale bits
+            # of the last 32-bit word where the reference reader runs out of bits (documented permissive case P4): the two
+            # cannot agree there.  What the decoder relies on afterwards is checked directly below (post-conditions).
+            perm4 += 1
+        elif okc and not okm:
+            ctx.violation(dict(kind="entropy", line=lines[i], impl=got[:300], model=want[:300]),
+                          what="%s accepts a table description (%s) that the reference reader rejects (%s): %s"
+                               % ("HUF_readStats" if k == "UH" else "FSE_readNCount", b.hex()[:40], want[4:], got[:80]))
+        elif okc and okm and canon(got) != canon(want):
+            ctx.violation(dict(kind="entropy", line=lines[i], impl=got[:600], model=want[:600]),
+                          what="%s and the reference reader disagree on an accepted table description %s: %s vs %s"
+                               % ("HUF_readStats" if k == "UH" else "FSE_readNCount", b.hex()[:40], got[:80], want[:80]))
+        elif okm and not okc:
+            stricter += 1
+        if okc:
+            # post-conditions the table builders rely on, whatever the reference reader says
+            used, log, v = canon(got)
+            used, log = int(used), int(log)
+            bad = None
+            if used > len(b) and not (k == "UN" and len(b) < 8):
+                bad = "reports %d bytes consumed out of %d" % (used, len(b))
+            elif k == "UN":
+                vals = [int(x) for x in fields(got).get("c", "").split(",") if x]
+                if log > 15 or log < 5:
+                    bad = "table log %d outside [5, FSE_TABLELOG_ABSOLUTE_MAX=15]" % log
+                elif sum(abs(x) for x in vals) != (1 << log):
+                    bad = "normalized counts sum to %d, not 2^%d" % (sum(abs(x) for x in vals), log)
+                elif len(vals) > msv + 1:
+                    bad = "%d symbols for maxSymbolValue %d" % (len(vals), msv)
+            else:
+                ws = [int(x) for x in v]
+                if log > 12 or log < 1:
+                    bad = "table log %d outside [1, HUF_TABLELOG_MAX=12]" % log
+                elif any(w > 12 for w in ws) or len(ws) > 256:
+                    bad = "weight > 12 or more than 256 symbols"
+                elif sum((1 << (w - 1)) for w in ws if w) != (1 << log):
+                    bad = "weights do not fill a table of 2^%d cells" % log
+            if bad:
+                ctx.violation(dict(kind="entropy", line=lines[i], impl=got[:600], model=want[:300]),
+                              what="%s returns success with a result the table builder cannot rely on: %s (%s)"
+                                   % ("HUF_readStats" if k == "UH" else "FSE_readNCount", bad, got[:80]))
+    ctx.notes["entropy_unit_cases"] = len(srcs)
+    ctx.notes["entropy_R_accepts_code_rejects"] = stricter
+    ctx.notes["entropy_permissive_P4"] = perm4
+    core.log("entropy reader tie: %d cases in %.1fs" % (len(srcs), time.time() - t0))
+
+
+def gen_tables_const(name):
+    txt = open(os.path.join(core.COQ, "Gen", "Gen_Tables.v")).read()
+    return int(re.search(r"Definition %s : N := (\d+)%%N" % name, txt).group(1))
+
+
+# --------------------------------------------------------------------------------------------------------------
 
 def get_witnesses(ctx, model_exe):
     ws = []
@@ -687,6 +1040,17 @@ def run(ctx):
             i = rp["line"].split(" ")[1]
             if crashes or "H %s %s" % (i, cout.get(i, "").split(" sel=")[0]) != (mout[0] if mout else ""):
                 ctx.violation(rp, what="replay: multi-DDict hash set still differs from the model / traps")
+        elif rp.get("kind") == "litbuf":
+            lb = core.build_harness("c03_litbuf", ["c03_litbuf.c"], variant="asan", extra_flags=["-w"])
+            cout, crashes = run_lines(lb, [rp["line"]], nproc=1, out_id_index=1)
+            mout = run_model(model_exe, [rp["model_line"]]) if rp.get("model_line") else []
+            core.log("impl :", cout, [x[1:] for x in crashes])
+            core.log("model:", mout)
+            i = rp["line"].split(" ")[1]
+            want = mout[0].split(" ", 2)[2] if mout else ""
+            exp = ("ERR " + LIT_ERR.get(want[4:], "?")) if want.startswith("ERR ") else want
+            if crashes or cout.get(i) != exp:
+                ctx.violation(rp, what="replay: literal buffer placement still differs from the model / traps")
         else:
             line = rp["line"]
             t = line.split(" ")
@@ -708,6 +1072,7 @@ def run(ctx):
     rng = random.Random(ctx.seed)
     gdict = get_gdict(exe)
     cases = make_cases(ctx, rng, cd, witnesses, gdict)
+    litbuf_tie(ctx, model_exe, ctx.c03_valid)
     t0 = time.time()
     out, crashes = run_lines(exe, [case_line(c) for c in cases])
     core.log("asan harness: %d cases in %.1fs (%d crashes)" % (len(cases), time.time() - t0, len(crashes)))
